@@ -87,3 +87,44 @@ def run(ctx):
             if not pseudo:
                 raise MachineryError("no scenario of room version %s generated for family %s" % (PSEUDO, g))
             ctx.replay_and_compare("c09meta", plain + pseudo)
+    record_sessions(ctx, 6000 if ctx.tier == "quick" else 80000)
+
+
+def record_sessions(ctx, n):
+    """code -> spec: long sessions of checks through ONE reused checker per room (c09rec), validated line by line by
+    Checker_trace.tla: the verdict is a function of (version, needed state, event) alone, equal to the specification's
+    and to a fresh Allowed()."""
+    import json
+    trace = os.path.join(ctx.scratch, "checker_trace.ndjson")
+    res = ctx.harness("c09rec", args=["-out", trace, "-n", n])
+    for r in res:
+        if not r.get("ok"):
+            ctx.disagree("panic/reused-checker", r.get("what", "panic")[:2000], {"scenario": r.get("extra"), "count": 1})
+    unreproduced = []
+
+    def on_reject(rec, lineno):
+        # the verdict may depend on the history of the session: the whole recording is repeated in fresh processes and
+        # the same line must show the same scenario and the same verdicts
+        for attempt in range(ctx.repro_attempts):
+            t2 = os.path.join(ctx.scratch, "checker_trace_again_%d.ndjson" % attempt)
+            ctx.harness("c09rec", args=["-out", t2, "-n", lineno])
+            with open(t2) as f:
+                again = [x for x in f.read().splitlines() if x.strip()]
+            if len(again) >= lineno:
+                r2 = json.loads(again[lineno - 1])
+                if all(r2.get(k) == rec.get(k) for k in ("ver", "st", "ev", "got", "fresh", "session", "step")):
+                    kind = "reused!=fresh" if rec["got"] != rec["fresh"] else "verdict"
+                    ctx.disagree("C09/session/%s/%s/reused=%s" % (kind, rec.get("key", "?"), rec["got"]),
+                                 "session %d step %d in room version %s (%s): the reused checker says allowed=%s, a fresh Allowed "
+                                 "says %s; Checker_trace.tla does not explain the line (the verdict must be the specification's "
+                                 "for the event and the state it needs, whatever was checked before)"
+                                 % (rec["session"], rec["step"], rec["ver"], rec.get("key"), rec["got"], rec["fresh"]),
+                                 {"harness": "c09rec", "args": ["-n", lineno, "-seed", ctx.seed], "line": lineno, "record": rec, "count": 1})
+                    return
+        unreproduced.append(lineno)
+
+    ctx.validate_trace("Checker_trace", "Checker_trace.cfg", trace, on_reject, max_rejections=12, timeout=1500)
+    if unreproduced:
+        if not ctx.violations:
+            raise MachineryError("recorded verdicts of session lines %s did not reproduce in fresh processes" % unreproduced[:10])
+        ctx.notes["unreproduced_session_lines"] = len(unreproduced)
